@@ -485,6 +485,13 @@ func anchorOracle(fn string, h, k int, x float64) (ok bool, obs, ref float64, la
 			ref = psiDiffHalf(int(math.Abs(x - 0.5)))
 		}
 		return math.Abs(obs-ref) <= tol*(1+math.Abs(ref)), obs, ref, "digamma"
+	case "DigammaQuarter":
+		obs = sp.Digamma(x) - sp.Digamma(1)
+		ref = -math.Pi/2 - 3*math.Ln2
+		for j := 1; j <= k; j++ {
+			ref += 1 / (float64(j) - 0.25)
+		}
+		return math.Abs(obs-ref) <= tol*(1+math.Abs(ref)), obs, ref, "digamma"
 	case "Trigamma", "Polygamma1":
 		if fn == "Trigamma" {
 			obs = sp.Trigamma(x)
@@ -553,6 +560,9 @@ func anchorOracle(fn string, h, k int, x float64) (ok bool, obs, ref float64, la
 		return finite(obs) && math.Abs(obs-ref) <= tol*math.Abs(ref), obs, ref, label
 	case "LogErfc":
 		obs, ref, label = sp.LogErfc(x), math.Log(math.Erfc(x)), "logerfc"
+		if math.IsInf(x, 0) {
+			return obs == ref || math.Abs(obs-ref) <= 1e-15, obs, ref, label
+		}
 		if x > 8 {
 			return true, obs, ref, label
 		}
@@ -696,7 +706,10 @@ func huntAnchor(a Anchor) HuntEntry {
 				x = c
 			}
 		}
-		x = shrinkFloat(x, func(c float64) bool { return bad(h, c) })
+		if a.Fam == "igamma" || a.Fam == "igamma-deriv" || a.Fam == "logerfc" {
+			// other families: the closed form exists only at the anchored argument itself
+			x = shrinkFloat(x, func(c float64) bool { return bad(h, c) })
+		}
 		e.Fails = true
 	}
 	_, obs, ref, label := anchorOracle(a.Fn, h, k, x)
@@ -708,6 +721,9 @@ func huntAnchor(a Anchor) HuntEntry {
 	}
 	if a.Fam == "igamma-deriv" {
 		e.Pred = derivPred(a.Fn, h, x, obs, ref)
+	}
+	if a.Fn == "LogErfc" && math.IsInf(x, 1) {
+		e.Pred = "x=+Inf"
 	}
 	return e
 }
